@@ -28,7 +28,7 @@ def generate(rng, tier, shard, nshards):
             base["late"] = rng.randint(1, len(G["rules"]) - 1)
             feat = feat + "+rules-added-after-evaluation"
         elif gi % 3 == 2:
-            base["pre"] = [rng.choice(["agenda", "treesum", "naive", "agenda_maxiter"]) for _ in range(rng.randint(1, 2))]
+            base["pre"] = [rng.choice(["agenda", "treesum", "naive", "agenda_maxiter", "treesum_tol", "agenda_tol"]) for _ in range(rng.randint(1, 2))]
             feat = feat + "+history"
         yield gops.event("addeos", dict(base, L=3), site="add_EOS", feat=feat)
         if srn == "Rat" and shape == "acyclic":
